@@ -50,25 +50,81 @@ def tlc_phase(maxn):
     return m, dump
 
 
-def replay(dump):
+def tlc_wide(n):
+    """MCQSimWide: basis states and non-stabiliser preparation prefixes of an n-qubit register with every
+    one-step probe (TLC evaluates invariants UnitNorm, ProjOK and dumps the probe tables)."""
+    files = ["Ring.tla", "QSim.tla", "MCQSimWide.tla"]
+    key = vlib.sha(vlib.spec_hash(*files), "wide", n)
+    d = os.path.join(vlib.BUILD, "tlc", "qsimwide-" + key)
+    meta = os.path.join(d, "meta.json")
+    dump = os.path.join(d, "dump.ndjson")
+    if os.path.exists(meta) and os.path.exists(dump):
+        m = json.load(open(meta))
+        m["cached"] = True
+        return m, dump
+    shutil.rmtree(d, ignore_errors=True)
+    os.makedirs(d)
+    cfg = os.path.join(d, "wide.cfg")
+    with open(cfg, "w") as f:
+        f.write("SPECIFICATION Spec\nCONSTANT N = %d\nINVARIANTS UnitNorm ProjOK DumpInv\n" % n)
+    tmp = dump + ".tmp"
+    r = vlib.tlc("MCQSimWide.tla", cfg, env={"QSIM_DUMP": tmp}, deadlock=False, timeout=3000, heap="12g")
+    vlib.tlc_ok(r, "MCQSimWide (N=%d)" % n)
+    os.replace(tmp, dump)
+    m = {"n": n, "distinct": r.distinct, "generated": r.generated, "tlc_wall_s": round(r.wall, 1), "cached": False}
+    json.dump(m, open(meta, "w"))
+    return m, dump
+
+
+def replay(dump, log=True):
     exe = vlib.link("qsim_replay", ["qsim_replay.cpp"], "plain", repo_srcs_override=["bloch/runtime/qasm_simulator.cpp"])
     tmp = vlib.scratch("qsimrep")
     try:
         out = os.path.join(tmp, "out.json")
-        p = vlib.sh([exe, dump, out, "40"], timeout=3000)
+        p = vlib.sh([exe, dump, out, "40", "log" if log else "nolog"], timeout=3000)
         if p.returncode != 0 or not os.path.exists(out):
-            # a crash of the implementation under replay is itself a finding, but we cannot attribute
-            # it to a property without the result file: report as infrastructure failure with detail
-            raise vlib.Infra("qsim_replay exited %d: %s" % (p.returncode, p.stderr.decode(errors='replace')[-1500:]))
+            # the implementation crashed under replay: no result file to attribute, so report it for every
+            # property served by this harness
+            return {"crashed": True, "rc": p.returncode, "stderr": p.stderr.decode(errors="replace")[-1500:]}
         return json.load(open(out))
     finally:
         shutil.rmtree(tmp, ignore_errors=True)
 
 
 def run(tier):
-    maxn = 3
+    """closed graph (<=3 qubits, log on) + closed graph (<=2 qubits, log off) + wide probes (5 / 6 qubits)."""
     t0 = time.time()
-    meta, dump = tlc_phase(maxn)
-    rep = replay(dump)
+    meta, dump = tlc_phase(3)
+    meta2, dump2 = tlc_phase(2)
+    wn = 5 if tier == "quick" else 6
+    wmeta, wdump = tlc_wide(wn)
+    parts = [("closed<=3", replay(dump, True)), ("closed<=2,log off", replay(dump2, False)),
+             ("wide n=%d" % wn, replay(wdump, True)), ("wide n=%d,log off" % wn, replay(wdump, False))]
+    rep = {"per_action": {}, "viol_by_prop": {}, "violations": [], "samples": [], "nodes": 0, "edges": 0,
+           "unreached": 0, "measure_draws": 0, "reset_draws": 0, "refused_checked": 0,
+           "nonstandard_reset_poststates": 0, "parts": {}}
+    for name, r in parts:
+        if r.get("crashed"):
+            for pid in ("C01", "C02", "C03", "C04", "C05", "C06", "C12"):
+                rep["viol_by_prop"][pid] = rep["viol_by_prop"].get(pid, 0) + 1
+                rep["violations"].append({"property": pid, "what": "implementation crashed during graph replay (%s): rc=%s %s"
+                                          % (name, r["rc"], r["stderr"][-400:]), "state": "", "action": name})
+            continue
+        rep["parts"][name] = {"nodes": r["nodes"], "edges": r["edges"]}
+        for k, v in r["per_action"].items():
+            rep["per_action"][k] = rep["per_action"].get(k, 0) + v
+        for k, v in r["viol_by_prop"].items():
+            rep["viol_by_prop"][k] = rep["viol_by_prop"].get(k, 0) + v
+        for v in r["violations"]:
+            v["part"] = name
+            v["state"] = v["state"][:400]
+            rep["violations"].append(v)
+        rep["samples"] += [dict(x, state=x["state"][:200]) for x in r["samples"][:3]]
+        for k in ("nodes", "edges", "unreached", "measure_draws", "reset_draws", "refused_checked", "nonstandard_reset_poststates"):
+            rep[k] += r[k]
+    meta = dict(meta)
+    meta["wide"] = wmeta
+    meta["distinct"] = meta["distinct"] + wmeta["distinct"]
+    meta["generated"] = meta["generated"] + wmeta["generated"]
     rep["wall_s"] = time.time() - t0
     return meta, rep
